@@ -173,6 +173,33 @@ fn elide_spoofable_trailers(
     }
 }
 
+/// `Kawa::consume` frees the storage up to the first slice still queued in
+/// `out`, so it relies on the queued slices being in storage order. The H1
+/// block converter does not always queue them that way: every `Cookie` crumb is
+/// emitted where the first `Cookie` field stood (ahead of fields stored before
+/// the later crumbs), and an HTTP/2 request line is emitted method, target,
+/// authority whatever order the client sent its pseudo-header fields in. A
+/// write that stops inside such a slice would free bytes that are still queued
+/// behind it. Any slice that has a lower-addressed slice queued after it is
+/// copied out of the storage.
+fn detach_out_of_order_slices(kawa: &mut super::GenericHttpStream) {
+    let buf = kawa.storage.buffer();
+    let mut lowest_later = u32::MAX;
+    for block in kawa.out.iter_mut().rev() {
+        let kawa::OutBlock::Store(store) = block else {
+            continue;
+        };
+        let kawa::Store::Slice(slice) = store else {
+            continue;
+        };
+        if slice.start > lowest_later {
+            *store = kawa::Store::from_slice(slice.data(buf));
+        } else {
+            lowest_later = slice.start;
+        }
+    }
+}
+
 impl<Front: SocketHandler> ConnectionH1<Front> {
     fn defer_close_for_tls_flush(&mut self, reason: &'static str) -> MuxResult {
         if self.initiate_close_notify() {
@@ -578,6 +605,7 @@ impl<Front: SocketHandler> ConnectionH1<Front> {
             super::shared::apply_response_header_edits(kawa, &edits);
         }
         kawa.prepare(&mut kawa::h1::BlockConverter);
+        detach_out_of_order_slices(kawa);
         let mut io_slices = Vec::new();
         for block in kawa.out.iter() {
             match block {
